@@ -429,7 +429,7 @@ func call(fn reflect.Value, args []interface{}, argTerms []*term.Term) (out inte
 		// an integer literal takes the parameter's numeric kind, as a Go
 		// untyped constant does
 		if i < len(argTerms) && isIntLit(argTerms[i]) && term.IsNum(pt) {
-			cv := av.Convert(pt)
+			cv := ConvNum(av, pt)
 			// out-of-range literal: Go rejects it; not settled here
 			if !sameNumber(av, cv) {
 				unspec("integer literal does not fit %v", pt)
@@ -755,13 +755,41 @@ func in(x, coll interface{}) bool {
 
 // Equal is the reference ==: numbers after promotion; strings; bools; nil
 // equals nil and any nil pointer/slice/map; different families are unequal.
-// Equality between sequences, maps or structs is not settled (panics unspec).
+// Two sequences are equal when they have the same length and equal elements
+// (the definition's `1..3 == [1, 2, 3]`), whatever their Go types; a nil slice
+// against a sequence, and equality between maps or structs, is not settled
+// (panics unspec).
 func Equal(a, b interface{}) bool {
 	if isNilValue(a) && isNilValue(b) {
 		return true
 	}
+	isSeq := func(x interface{}) bool {
+		if x == nil {
+			return false
+		}
+		k := reflect.TypeOf(x).Kind()
+		return k == reflect.Slice || k == reflect.Array
+	}
 	if isNilValue(a) || isNilValue(b) {
+		if isSeq(a) && isSeq(b) {
+			unspec("equality between a nil slice and a sequence")
+		}
 		return false
+	}
+	if isSeq(a) && isSeq(b) {
+		va, vb := reflect.ValueOf(a), reflect.ValueOf(b)
+		if va.Len() != vb.Len() {
+			return false
+		}
+		for i := 0; i < va.Len(); i++ {
+			if !va.Index(i).CanInterface() || !vb.Index(i).CanInterface() {
+				unspec("equality between sequences of unexported values")
+			}
+			if !Equal(va.Index(i).Interface(), vb.Index(i).Interface()) {
+				return false
+			}
+		}
+		return true
 	}
 	if isNumV(a) && isNumV(b) {
 		return Compare("==", a, b)
